@@ -81,6 +81,27 @@ class UserC:
         self.name = name
 
 
+class UserStr:
+    """A user-supplied string parameter whose role (quantity / concentration / unit) is fixed by its first use on a
+    path: parsed as a quantity it behaves like UserQ, as a concentration like UserC, used as a unit it is
+    <symbolic prefix><base> with the base a memoised choice."""
+    __slots__ = ('name',)
+
+    def __init__(self, name):
+        self.name = name
+
+    def __repr__(self):
+        return f"UserStr({self.name})"
+
+
+class UserC1:
+    """'1 ' + <user concentration unit>: parses to (scale of the unit, numerator, denominator)."""
+    __slots__ = ('name',)
+
+    def __init__(self, name):
+        self.name = name
+
+
 class Subst:
     __slots__ = ('kind', 'ident')
 
@@ -371,6 +392,11 @@ class Interp:
 
     # ------------------------------------------------------------------ strings
     def as_tstr(self, v):
+        if isinstance(v, UserStr):
+            role = self.memo.get(('role', v.name))
+            if role == 'unit':
+                return TStr([('pre', 'P_' + v.name), ('lit', self.memo[('unitbase', v.name)])])
+            return None
         if isinstance(v, S):
             t = v.t
             for name, text in self.pre_bind.items():
@@ -380,6 +406,10 @@ class Interp:
 
     def unit_of_str(self, v, node, what='unit string'):
         """Unit monomial denoted by a unit string value."""
+        if isinstance(v, UserStr) and ('role', v.name) not in self.memo:
+            bases = self.opts.get('unit_bases', ('L', 'g', 'mol', 'U'))
+            self.memo[('role', v.name)] = 'unit'
+            self.memo[('unitbase', v.name)] = bases[self.choose(len(bases), f"base of unit {v.name}")]
         t = self.as_tstr(v)
         if t is None:
             self.incomplete(node, f"{what}: not a string ({v!r})")
@@ -577,7 +607,7 @@ class Interp:
             return v.t.text() != ''
         if isinstance(v, (Tup, ListV, DictV)):
             return len(v) > 0 if not getattr(v, 'open', False) else None
-        if isinstance(v, (Subst, Cont, Closure, UserQ, UserC)):
+        if isinstance(v, (Subst, Cont, Closure, UserQ, UserC, UserStr)):
             return True
         return None
 
@@ -625,6 +655,9 @@ class Interp:
         a, b = self.ev(n.left), self.ev(n.right)
         if isinstance(n.op, ast.Add):
             ta, tb = self.as_tstr(a), self.as_tstr(b)
+            if ta is not None and ta.is_literal() and ta.text() == '1 ' and isinstance(b, UserStr) and tb is None:
+                self.memo.setdefault(('role', b.name), 'concentration')
+                return UserC1(b.name)
             if ta is not None and tb is not None:
                 return S(ta.concat(tb))
             if (ta is not None or tb is not None) and (isinstance(a, Other) or isinstance(b, Other)):
@@ -905,6 +938,10 @@ class Interp:
             r = hook(self, it, node)
             if r is not None:
                 return r
+        if isinstance(it, Other) and it.d == 'range':
+            return [Other('index')]
+        if isinstance(it, Other) and not self.opts.get('strict_other', True):
+            return [Other('elem')]
         self.incomplete(node, f"iteration over {it!r}")
 
     def comp(self, n, elt_fn):
